@@ -256,7 +256,8 @@ def compare(got_snap, got_sig, exp_snap, exp_sig, tag):
         items.append({'type': 'SIG_DIFF', 'path': tag,
                       'diff': (d1 or d2)[:300]})
     for it in dbsnap.diff_schema(dbsnap.strip_rows(got_snap),
-                                 dbsnap.strip_rows(exp_snap)):
+                                 dbsnap.strip_rows(exp_snap),
+                                 count_duplicates=True):
         it['path'] = tag
         items.append(it)
     for it in snap_rows_diff(got_snap, exp_snap):
